@@ -3,6 +3,9 @@
 package poll
 
 import (
+	"context"
+	"net/http"
+	"net/http/httptest"
 	"sort"
 
 	"github.com/prometheus/client_golang/prometheus"
@@ -104,5 +107,26 @@ func (v *Verif) Drain(vc *VerifConn) (bodies [][]byte, closed bool) {
 		default:
 			return bodies, false
 		}
+	}
+}
+
+// VerifPath hands one long-poll request with the given URL path to the production PollHandler and reports under
+// which (group, id) the handler registers the listener, or the status with which it refuses the request.  No socket:
+// the request context is already cancelled, so the handler registers, sees the cancellation and unregisters.
+func VerifPath(path string) (group, id string, registered bool, status int) {
+	connect := make(chan *connection, 1)
+	disconnect := make(chan *connection, 1)
+	h := &PollHandler{config: &Config{BufferSize: 1}, metrics: metrics.New(prometheus.NewRegistry()), connect: connect, disconnect: disconnect}
+	ctx, cancel := context.WithCancel(context.Background())
+	cancel()
+	req := httptest.NewRequest(http.MethodGet, "http://poll.invalid/", nil).WithContext(ctx)
+	req.URL.Path = path
+	rec := httptest.NewRecorder()
+	h.ServeHTTP(rec, req)
+	select {
+	case c := <-connect:
+		return c.group, c.id, true, rec.Code
+	default:
+		return "", "", false, rec.Code
 	}
 }
